@@ -46,7 +46,9 @@ package dkg
 //@   safety C18,C11
 //@   requires d != nil && verifier != nil && deal != nil && wfStore(d.pubKeys) && d.commits != nil
 //@   pure
-//@   modifies $dec
+//@   modifies $dec, $commitChecks, $commitOK
+//@   epilogue $commitChecks = old($commitChecks) + 1
+//@   epilogue $commitOK = old($commitOK) + ite(result0 && result1 == nil, 1, 0)
 //@   loop 0 invariant len(originalCommits) == $i + 1 && (forall j int :: 0 <= j && j <= $i ==> originalCommits[j] == commitsData[j] && originalCommits[j] != nil)
 //@   loop 1 invariant forall j int :: 0 <= j && j <= $i ==> ptEq(originalCommits[j], $dec.Commitments[j])
 //@   ensures[C11.commits,C02.commits] result0 ==> result1 == nil && $dec != nil && (dealerOf(d, deal) in d.commits) && len(d.commits[dealerOf(d, deal)]) == len($dec.Commitments) && (forall j int :: 0 <= j && j < len($dec.Commitments) ==> ptEq(d.commits[dealerOf(d, deal)][j], $dec.Commitments[j]))
@@ -85,3 +87,16 @@ package dkg
 //@   modifies $bufc
 //@   ensures unchanged("airgapped.Machine.dkgInstances", "map[string]*DKG", "DKG.instance", "client.Operation.DKGIdentifier")
 //@   ensures[C18.keyring.nonnil] result1 == nil ==> result0 != nil
+
+// every foreign deal is checked against its dealer's broadcast commitments, and one failed check fails the step
+//@ ghost var $commitChecks int
+//@ ghost var $commitOK int
+//@ func (*DKG).ProcessDeals behavior checks
+//@   nosafety
+//@   requires d != nil
+//@   prologue $commitChecks = 0
+//@   prologue $commitOK = 0
+//@   modifies *
+//@   modifies $dec, $commitChecks, $commitOK
+//@   loop 0 invariant[C11.deals.all] $commitChecks == $commitOK
+//@   ensures[C11.deals.all] result1 == nil ==> $commitChecks == $commitOK
